@@ -110,6 +110,36 @@ CHECKS = {
         note="single-byte alterations only; a damaged header of the last record running into EOF may read as EOF (indistinguishable from a cut)",
         technique="fault enumeration over spec-generated files, outcomes judged by TLC against the TLA+ spec",
     ),
+    "C07": dict(
+        category="model_checking",
+        text=("WAL.tla (numbered files, Append/AppendSync, forced and size-triggered Rotate, buffer flushes that may cut the last record, Crash) is "
+              "model-checked for ReplayIsPrefix / SyncedSurvive / CleanReplayIsAll; WAL-only sessions of the real code run under strace, the image "
+              "after every completed mutating syscall and after every returned call is replayed by the real replayer, and TLC (WALTrace.tla) "
+              "requires a successful replay of a prefix containing every synced record, a write+fsync inside every AppendSync, and a complete "
+              "replay of the closed log (file size limits below one record, records around / above the write buffer, 100+ files)."),
+        design_ref="§5 C07",
+        note="kill -9 model; single appender; needs ptrace",
+        technique="TLA+ spec + TLC exhaustive check; strace crash-image enumeration of the real WAL judged by TLC",
+    ),
+    "C09": dict(
+        category="fault_enumeration",
+        text=("Generated tables under each compression type: every (sampled in quick) byte offset of data.rio x {8 bit flips, 00, FF, marker bytes}, "
+              "every truncation length and record swaps; each damaged table is opened with verify-on-load and with verify-on-read under all four "
+              "index loaders; Get of every key, full and range scans are judged by TLC against SSTable.tla's NeverDifferentValue."),
+        design_ref="§5 C09",
+        note="CRC-64 collisions not explored; empty/nil values (zero checksum by design) are only protected against header-detectable damage",
+        technique="fault enumeration judged by TLC against the TLA+ spec",
+    ),
+    "C16": dict(
+        category="model_checking",
+        text=("SortedMapPQ.tla / PQList.tla: TLC enumerates every insertion order of every subset of 7 keys (13 700) and every list of ascending "
+              "inputs over 4 keys, checking order independence, iterator consistency and MergeOk; the orders are replayed on the real skip list "
+              "under int / string / bytes / magnitude-returning comparators with all probes and bounds (lower > upper rejected), seeded orders up "
+              "to 10 000 keys, and the lists are merged by the real heap; every reply judged by TLC."),
+        design_ref="§5 C16",
+        note="quick replays a seeded sample of the enumerated orders/lists, thorough all of them",
+        technique="TLA+ spec + TLC exhaustive enumeration; replay; trace validation by TLC",
+    ),
     "C05": dict(
         category="model_checking",
         text=("SimpleDB.tla with 2 clients, two-step Get, database lock, unbuffered hand-off, flusher and compactor is model-checked over all "
